@@ -1129,7 +1129,14 @@ def run(ctx):
                  "*_check_formatting(..))), judged inside Coq against FmtEnv.impl_format in that environment and against the "
                  "documented geometry.  Non-trivial (counted): distinct (style, specifier) pairs judged individually "
                  "inside Coq, i.e. sentences and near-sentences, plus distinct (style, specifier, environment, terminal size, "
-                 "route) environment cases — the bulk of the enumeration (rejected strings) is not counted."),
+                 "route) environment cases — the bulk of the enumeration (rejected strings) is not counted.  Denotation on the "
+                 "output: every transparency field on a terminal whose background colour is undetermined / known, images with "
+                 "opaque, partially and fully transparent pixels: the pixels the block text displays and, for all styles, equality "
+                 "with the output of documented-equivalent specifiers; animated APNG / WebP / GIF file sources with iterm2 "
+                 "L / W / A / no method and kitty L / W at several seek positions: frames held and frame shown by every "
+                 "transmitted picture, equality with the frame of ImageIterator(image, 1, spec) — judged inside Coq "
+                 "(FmtDenTie.acheck / fcheck); counted: distinct (style, specifier, background, pixels) and (source, specifier, "
+                 "route, position) cases."),
         "samples": samples + [f"{st}:{sp!r}" for st, sp, _, _ in acc_cases[:3]] + out.get("_env_samples", []),
         "histogram": out["histogram"],
         "mismatches": out["mismatches"],
@@ -1146,6 +1153,9 @@ def run(ctx):
             "inputs (environment variables, the terminal's identity) are exercised only as far as the child processes "
             "of the correspondence fix them (COLUMNS/LINES = the terminal size, queries disabled)",
             "z-index digits: the documentation says 'integer'; read as what int() accepts (Unicode decimal digits)",
+            "denotation on the output: Pillow's alpha compositing is the exact blend to within one unit per channel; pixels "
+            "whose alpha is within one unit of the threshold are not judged; the terminal's background colour enters through "
+            "the test-suite's stub of get_fg_bg_colors()",
             "a threshold '.ddd' denotes the double nearest to the decimal (checked to 2^-54); '#.99999999999999999999' "
             "is 1.0 as a double, which draw(alpha=) would refuse — not exercised, not counted as a violation",
         ],
@@ -1153,6 +1163,8 @@ def run(ctx):
             "tx_regex.py: CPython's re._parser + the translation of its parse tree to ranges (the class table it emits is "
             "re-checked in Coq)",
             "impl driver: instance-level wrappers of _format_render/_render_image; draw() output captured from sys.stdout",
+            "denotation driver (impl_c19den.py): the shared lexer reads the block text (fg/bg SGR + half-block glyphs) and the "
+            "graphics payloads; Pillow decodes the transmitted pictures; a frame is identified by the colour of its first pixel",
             "environment driver (impl_c19env.py): pty.openpty + TIOCSWINSZ give the child a terminal of the stated size; "
             "the child reports isatty() of its streams, utils._tty_fd and get_terminal_size(), which the plugin compares "
             "with the requested environment (a difference is an infrastructure error); the measurement of the geometry "
